@@ -102,6 +102,8 @@ def merge_and_view_forms(name_prefix, k0, tier):
                     continue
                 if srcform == "counter" and (ta["k"] == "bv" or tb["k"] == "bv" or (tier == "quick" and ta["w"] != tb["w"])):
                     continue
+                if srcform == "counter" and ((ta["k"] == "s" and ta["w"] == 1) or (tb["k"] == "s" and tb["w"] == 1)):
+                    continue        # the counter adds the integer 1, which a Signed[1] cannot represent
                 ports = [port("clk", "in", BIT), port("c", "in", BIT), port("a", "in", ta), port("b", "in", tb),
                          port("o", "out", dst, default=0)]
                 objs, ctxs = [], []
